@@ -28,6 +28,7 @@ type c6Close struct {
 	err        error
 	inProgress []*c6Inv // invocations running at the instant the call returned
 	badState   []string // R2 findings at that instant
+	pubNotClosed []string // publishers of started handlers whose Close had not returned at that instant
 	invAt      time.Duration
 	retAt      time.Duration
 }
@@ -119,7 +120,19 @@ func c06Body(r *Run) {
 			}
 		}
 	}
-	r.Describe("handler stopped on its own: %d after %v; panicking messages: %v", stopHandler, stopDelay, panics)
+	// a quarter of the runs: publishers whose Close takes a while (they flush); a fifth of the scripted-subscriber runs:
+	// subscribers whose Close waits until the message in flight is settled (as broker clients do)
+	slowPubClose := t.Chance(1, 4)
+	// (only without subscriber decorators: the transform decorator may drop a message unsettled when the subscription
+	// ends, which such a subscriber would wait for for ever)
+	subCloseWaits := !useGoChannel && nDec == 0 && t.Chance(1, 5)
+	for _, h := range hs {
+		if slowPubClose {
+			h.pub.CloseDelay = 50 * time.Millisecond
+		}
+		h.sub.CloseWaits = subCloseWaits
+	}
+	r.Describe("handler stopped on its own: %d after %v; panicking messages: %v; slow publisher Close=%v; subscriber Close waits for settlement=%v", stopHandler, stopDelay, panics, slowPubClose, subCloseWaits)
 	r.Describe("transport gochannel=%v, %d subscriber decorators, CloseTimeout=%v, %d concurrent closers (delays %v), injected Close before step %d, Subscribe of handler %d fails", useGoChannel, nDec, closeTimeout, nClosers, closerDelay, inj, subscribeFails)
 	r.Param("inject_step", inj)
 
@@ -178,6 +191,17 @@ func c06Body(r *Run) {
 		c.ret = tick()
 		c.retAt = r.Sim.Now()
 		c.inProgress = running()
+		// "closes every handler's subscriber and publisher": when nil comes back the publishers' Close calls have returned
+		if c.err == nil && !earlyClose && rig.Router.IsRunning() {
+			for i, h := range hs {
+				if i == stopHandler || i == subscribeFails || len(h.sub.Subscribes) == 0 && !useGoChannel {
+					continue
+				}
+				if h.h != nil && rawClosed(h.h.Started()) && h.pub.ClosesDone == 0 {
+					c.pubNotClosed = append(c.pubNotClosed, fmt.Sprintf("the publisher of %s is not closed yet (Close calls begun %d, returned %d)", h.name, h.pub.Closes, h.pub.ClosesDone))
+				}
+			}
+		}
 		if c.err != nil {
 			r.Fault("close-timeout-expired")
 		}
@@ -248,6 +272,9 @@ func c06Body(r *Run) {
 						r.Fail("C06.R1", "a handler invocation started after Router.Close had returned nil", "%s returned nil at ev %d; %s started %s at ev %d", c.who, c.ret, iv.handler, iv.uuid, iv.start)
 					}
 				}
+				for _, b := range c.pubNotClosed {
+					r.Fail("C06.R6", "Router.Close returned nil before the publisher of a started handler was closed", "%s: %s", c.who, b)
+				}
 				for _, b := range c.badState {
 					r.Fail("C06.R2", "when Close returned nil an emitted message was neither (handled and settled) nor (unhandled and unacked)", "%s: %s", c.who, b)
 				}
@@ -275,7 +302,9 @@ func c06Body(r *Run) {
 		if len(closes) > 0 && !rig.RunReturned && !earlyClose {
 			r.Fail("C06.R5", "Router.Run did not return after Close", "")
 		}
-		if len(closes) > 0 && !useGoChannel && !earlyClose {
+		// (a subscriber whose Close waits for settlement never lets go of a message that the router's context decorator
+		// dropped unsettled when the subscription ended: the close then times out, and what it promises is void)
+		if len(closes) > 0 && !useGoChannel && !earlyClose && !(subCloseWaits && anyErr) {
 			for i, h := range hs {
 				if len(h.sub.Subscribes) == 0 {
 					continue // never started
